@@ -1,4 +1,101 @@
-import FiddleModel.Model.Graph
+/-
+C08 — traversal paths are sound and complete.
+
+Model: `Model/Graph.lean` (`followPath`, `iterate` in its three modes, `collectPathsById`,
+`allPathsTo`), over heaps whose object identity is the heap index. Hypotheses, both decidable
+and both checked by the driver on every heap it is sent (a request violating either is refused,
+which the harness reports as a correspondence failure):
+  * `Heap.PathsDistinct` — the path elements of one object's children are distinct;
+  * `Heap.WellFormed`    — children refer to earlier objects (the structure is acyclic).
+
+Proved here for every heap, root and mode: soundness of every reported pair; for the
+un-memoized traversal completeness and no duplicate path; for the memoized traversal at most
+one report per mutable object; the all-paths query is exactly the set of reaching paths.
+Carried by the correspondence check only: "memoized traversal visits every reachable mutable
+object at least once", the identity rebuild (`map_children`) and the cycle error of `iterate`
+(cyclic structures are outside well-formed heaps; `build`'s cycle error is in the model).
+-/
+import FiddleModel.Lemmas.Traverse
+
 namespace Fiddle
-theorem C08_placeholder : True := trivial
+
+/-- Soundness, all modes: each reported (value, path) satisfies `follow_path(root, path) is value`. -/
+theorem C08_sound (h : Heap) (hd : h.PathsDistinct) (mode : IterMode) (root : GVal)
+    (v : GVal) (p : Path) (hm : (v, p) ∈ iterate h mode root) : followPath h root p = some v := by
+  have := iterGo_sound h hd mode root (h.length + 1) root [] {} rfl (by intro vp hvp; cases hvp)
+  exact this (v, p) hm
+
+/-- Completeness of the un-memoized traversal: every path that reaches a value is reported. -/
+theorem C08_basic_complete (h : Heap) (wf : h.WellFormed) (root v : GVal) (p : Path)
+    (hf : followPath h root p = some v) : (v, p) ∈ iterate h .basic root := by
+  rw [iterate_basic]
+  have := pairs_complete h (h.length + 1) root v [] p hf (followPath_length_heap h wf p root v hf)
+  simpa using this
+
+/-- ... exactly once: no path is reported twice. -/
+theorem C08_basic_no_duplicates (h : Heap) (hd : h.PathsDistinct) (root : GVal) :
+    ((iterate h .basic root).map (·.2)).Nodup := by
+  rw [iterate_basic]; exact pairs_paths_nodup h hd _ root []
+
+/-- The un-memoized traversal reports exactly the valid paths, each with its value. -/
+theorem C08_basic_exact (h : Heap) (wf : h.WellFormed) (hd : h.PathsDistinct) (root v : GVal)
+    (p : Path) : (v, p) ∈ iterate h .basic root ↔ followPath h root p = some v :=
+  ⟨C08_sound h hd .basic root v p, C08_basic_complete h wf root v p⟩
+
+/-- The memoized traversal reports a mutable object at most once. -/
+theorem C08_memo_at_most_once (h : Heap) (root : GVal) :
+    (refIds (iterate h .memo root)).Nodup :=
+  (iterGo_memo_once h (h.length + 1) root [] {} ⟨by simp [refIds], by simp [refIds]⟩).1.nodup
+
+/-- `collect_paths_by_id` / `get_all_paths`: exactly the paths that reach the object. -/
+theorem C08_all_paths_exact (h : Heap) (wf : h.WellFormed) (hd : h.PathsDistinct) (root : GVal)
+    (i : Nat) (p : Path) : p ∈ allPathsTo h root i ↔ followPath h root p = some (.ref i) := by
+  rw [← C08_basic_exact h wf hd]
+  simp only [allPathsTo, collectPathsById, List.mem_filterMap]
+  constructor
+  · rintro ⟨⟨j, q⟩, ⟨⟨w, q'⟩, hm, hw⟩, hq⟩
+    cases w with
+    | atom t => simp at hw
+    | ref k =>
+      simp at hw
+      obtain ⟨rfl, rfl⟩ := hw
+      by_cases e : k = i
+      · subst e; simp at hq; subst hq; exact hm
+      · simp [e] at hq
+  · intro hm
+    exact ⟨(i, p), ⟨(.ref i, p), hm, by simp⟩, by simp⟩
+
+/-- ... and no path is listed twice. -/
+theorem C08_all_paths_nodup (h : Heap) (hd : h.PathsDistinct) (root : GVal) (i : Nat) :
+    (allPathsTo h root i).Nodup := by
+  have hn := C08_basic_no_duplicates h hd root
+  have e : allPathsTo h root i =
+      ((iterate h .basic root).filter (fun vp => vp.1 == .ref i)).map (·.2) := by
+    simp only [allPathsTo, collectPathsById]
+    induction iterate h .basic root with
+    | nil => rfl
+    | cons x xs ih =>
+      obtain ⟨w, q⟩ := x
+      cases w with
+      | atom t => simpa [List.filterMap_cons, List.filter_cons] using ih
+      | ref k =>
+        by_cases e : k = i
+        · subst e; simpa [List.filterMap_cons, List.filter_cons] using ih
+        · simpa [List.filterMap_cons, List.filter_cons, e] using ih
+  rw [e]
+  exact (List.Nodup.sublist (List.Sublist.map _ List.filter_sublist) hn)
+
+/-! ## Non-vacuity: the hypotheses hold of a diamond with a shared dict, and the traversal of it
+    is non-trivial. -/
+
+private def dia : Heap :=
+  [ { kind := .dict, children := [(.key "k", .atom "1")] },
+    { kind := .list, children := [(.index 0, .ref 0), (.index 1, .ref 0)] } ]
+
+example : dia.WellFormed ∧ dia.PathsDistinct :=
+  ⟨Heap.wellFormed_of_B dia (by decide), Heap.pathsDistinct_of_B dia (by decide)⟩
+
+example : (iterate dia .basic (.ref 1)).length = 5 ∧ (iterate dia .memo (.ref 1)).length = 3 ∧
+    allPathsTo dia (.ref 1) 0 = [[.index 0], [.index 1]] := by decide
+
 end Fiddle
